@@ -186,6 +186,7 @@ def physical(chk, st, sp, det, key):
 
 def run(tier, seed):
     chk = common.Check(PID, tier, seed)
+    lattice.REUSE = True          # parameter settings reached on live objects, by every route (see lattice.py)
     rng = random.Random(seed)
     quick = tier == "quick"
     chk.rule = ("purification lattice points (all parameters incl. visible/hidden/auxiliary biases non-zero, phase "
